@@ -156,6 +156,17 @@ def r3_sorted(c, facts):
     tb, tt = topo[0]
     arms = P.try_arms(fn, tb, tt)
     if not arms:
+        # `match toposort(..) { Ok(order) => order, Err(cycle) => return Err(..) }`
+        cur = tt['target']
+        sw = fn.mir['blocks'][cur]['term']
+        hops = 0
+        while sw['t'] != 'switch' and 'target' in sw and hops < 3:
+            cur = sw['target']; sw = fn.mir['blocks'][cur]['term']; hops += 1
+        if sw['t'] == 'switch':
+            ee = P.enum_edges(sw)
+            if '0' in ee and '1' in ee and not P.success_return_reachable(fn, ee['1'], []):
+                arms = (ee['0'], ee['1'])
+    if not arms:
         c.bad(R, 'toposort-result-not-checked', 'the result of toposort is not propagated with ?: a cycle would not stop compilation')
         return
     cont, brk = arms
@@ -366,7 +377,27 @@ def r6_complete(c, facts):
             for s in blk['stmts']:
                 if s['s'] == 'assign' and s['rv']['r'] == 'aggr' and s['rv'].get('variant') == 'CycleDetected':
                     sites.append(f2.qname)
-    topo_cl = [cl.qname for cl in facts.closures_of(holder(facts, fn, 'toposort'))]
+    th = holder(facts, fn, 'toposort')
+    # the error closure of the sort, or a private function only it calls (`cycle_error(graph, cycle)`)
+    def on_error_arm(x):
+        """is the private function x called only on the Err arm of the toposort result?"""
+        tp = P.call_blocks(th, 'toposort')
+        if not tp:
+            return False
+        arms = P.try_arms(th, tp[0][0], tp[0][1])
+        if not arms:
+            cur = tp[0][1]['target']
+            sw = th.mir['blocks'][cur]['term']
+            hops = 0
+            while sw['t'] != 'switch' and 'target' in sw and hops < 3:
+                cur = sw['target']; sw = th.mir['blocks'][cur]['term']; hops += 1
+            ee = P.enum_edges(sw) if sw['t'] == 'switch' else {}
+            arms = (ee.get('0'), ee.get('1')) if '1' in ee else None
+        sites = call_sites_of(th, x)
+        return bool(arms) and bool(sites) and all(th.dominates(arms[1], b) for b, _ in sites)
+    plain_th = facts.fns.get(th.id, th)
+    th = plain_th
+    topo_cl = [x.qname for x in facts.family(th) if x.id != th.id and (x.kind == 'Closure' or (x.qname not in (facts.known_fns or ()) and on_error_arm(x)))]
     if sites and all(q in topo_cl for q in sites):
         c.ok(R, {'Kind::CycleDetected constructed in': sites})
     else:
